@@ -83,6 +83,31 @@ int main(int argc, char **argv) {
             free(inp);
         }
     }
+    /* large byte ranges of a file (several internal read chunks, ranges ending before the end of the file, ranges running to the
+     * end with length 0): too long to evaluate MD5 in TLC for every one, so the record carries the in-memory digest of the same
+     * bytes (a function validated against the reference on its own) and TLC demands equality */
+    if (shard == 0) {
+        static const size_t BIG[] = {32767, 32768, 32769, 65535, 65536, 65537, 98304, 100001, 163840 + 77};
+        for (size_t k = 0; k < sizeof BIG / sizeof *BIG; k++) {
+            size_t L = BIG[k], pre = vh_rand() % 40000, suf = 1 + vh_rand() % 5000;
+            unsigned char *all = malloc(pre + L + suf);
+            for (size_t j = 0; j < pre + L + suf; j++) all[j] = (unsigned char) (vh_rand() >> 3);
+            int fd = open(scratch, O_WRONLY | O_CREAT | O_TRUNC, 0644);
+            if (write(fd, all, pre + L + suf) < 0) _exit(2);
+            close(fd);
+            for (int toend = 0; toend < 2; toend++) {
+                size_t len = toend ? L + suf : L;
+                unsigned char mem[16], out[16]; memset(out, 0, 16);
+                qhashmd5(all + pre, len, mem);
+                vh_where = "md5file"; vh_watchdog(10);
+                bool ok = qhashmd5_file(scratch, (off_t) pre, toend ? 0 : (ssize_t) L, out);
+                alarm(0);
+                vh_bprintf(&b, "{\"fn\":\"md5rel\",\"file\":true,\"biglen\":%zu,\"toend\":%d,\"inp\":[],\"mem\":", len, toend); seq(mem, 16);
+                vh_bprintf(&b, ",\"outs\":["); if (ok) seq(out, 16); vh_bprintf(&b, "]}"); vh_bflush(&b);
+            }
+            free(all);
+        }
+    }
     vh_close();
     exit(0);
 }
